@@ -533,8 +533,9 @@ theorem print_narrow_effect (t : Term) (b : Nat) (hst : t.st = .ground) (hb : 0x
   have h2 : b ≠ 0x7f := by omega
   have h3 : b < 0x80 := by omega
   have hcl : t.grid.clobber t.blocks t.cx t.cy = t.grid := Grid.clobber_noop _ _ _ _ hc0 hc1
+  have hxg : t.cx + 1 < t.grid.w := hx
   simp [feedByte, hst, feedGround, h1, h2, h3, printByte, hfont, hacs, hwd, putGlyph, putNarrow, hk, doWrap, hpw, hirm,
-    putNarrowAt, hcl, hx]
+    putNarrowAt, hcl, hxg]
 
 /-- cell-level reading of `print_narrow_effect` -/
 theorem print_narrow_cells (t : Term) (b : Nat) (hst : t.st = .ground) (hb : 0x20 ≤ b ∧ b < 0x7f)
@@ -1076,7 +1077,9 @@ theorem print_last_col_effect (t : Term) (b : Nat) (hst : t.st = .ground) (hb : 
     have : t.w = t.grid.w := rfl
     omega
   have hcl : t.grid.clobber t.blocks t.cx t.cy = t.grid := Grid.clobber_noop _ _ _ _ hc0 hc1
-  have hx' : ¬ t.cx + 1 < t.w := by omega
+  have hx' : ¬ t.cx + 1 < t.grid.w := by
+    have : t.w = t.grid.w := rfl
+    omega
   simp [feedByte, hst, feedGround, h1, h2, h3, printByte, hfont, hacs, hwd, putGlyph, putNarrow, hk, doWrap, hpw, hirm,
     putNarrowAt, hcl, hx']
 
